@@ -8,6 +8,9 @@
 //    Error model: a cross product of two vectors at angle theta has a direction error ~ eps / sin(theta), so bounds
 //    are eps * (c1 + c2 / sin(theta)); the degenerate classes fall back to axis-aligned helper vectors whose cross
 //    products are exact, so their bound is c1 * eps.
+//    3b (frames_exact_*): argument pairs in an exact relation (integer / dyadic multiples of small-integer vectors with
+//    ratios that are not powers of two, exactly perpendicular integer pairs, equal tangents, collinear points);
+//    3c (frames_near_*): pairs at 2^-k, pi/2 +- 2^-k, pi - 2^-k and directions of length 1 +- 2^-k.
 // ===================================================================================================================
 #pragma once
 
